@@ -16,6 +16,15 @@ CLAIMED = {
              "finding (re-entrant registration order) is assumed away and witnessed concretely.",
         design="3/C13",
         technique=TECH + "; operation sequences as lazily created solver choice variables; reference-model oracle"),
+    "C14": dict(
+        text="The real bencode / bdecode are executed symbolically (pure-Python BytesIO stub) on structures whose skeleton is "
+             "one of 22 listed shapes and whose leaves (ints, byte strings, unicode strings, dict keys) are symbolic: "
+             "bdecode(bencode(x)) equals x up to the allowed identifications (a left inverse, hence injectivity within the "
+             "bounds), pairs of small structures are compared directly, key order is permuted, non-encodable values are rejected.",
+        note="Stub S1 (BytesIO), differentially tested each run. Leaves: |int| <= 12 (quick; dict shapes <= 1-2), strings <= 2 "
+             "characters < U+0100, dict keys <= 1 ASCII character, depth <= 2.",
+        design="3/C14",
+        technique=TECH + "; skeleton chosen by solver variables, symbolic leaves, left-inverse (round-trip) argument for injectivity"),
     "C15": dict(
         text="The real hash_args_eval / get_arg_defaults / hash_eval are executed symbolically on two calls of each "
              "signature template with symbolic integer value tokens; z3 decides, for every pair of call forms and every "
